@@ -678,8 +678,24 @@ def _pulay_mech(case, member, alt_cache, sett_fn, e_batch, tolE, innocent, P_row
         nb = (9 if case["method"] == "PM6" else 4) * len(member["Z"])
         try:
             o = run.single_point([member["Z"]], [member["X"].tolist()], sett_fn(dict(case, conv=[0, 0.0])),
-                                 charges=float(member["q"]), mult=float(member["mult"]), P0=np.asarray(P_row)[None, :nb, :nb])
+                                 charges=float(member["q"]), mult=float(member["mult"]), P0=np.array(P_row, dtype=float)[None, :nb, :nb].copy())
             if not _flag(o, 0) and abs(float(o["Etot"][0]) - e_batch) <= 100 * tolE:
+                return MECH_DIIS
+        except Exception:  # noqa: BLE001
+            pass
+        # an UNSTABLE stationary point (plain iteration and adaptive mixing walk away from it) still is a self-consistent
+        # solution of the molecule alone when its density meets the convergence criterion of the case's own solver on the
+        # molecule's own Hamiltonian: restarted alone from the batch row's density, the Pulay solver of the case must accept it
+        # as converged at once (<= 6 cycles of the error monitor; the regular solution restarted from itself takes 1, this unstable point 4) at the batch value (AM1 H2S next to
+        # CH4/OH-/CN-: -191.51 eV in the batch, gap 0.15 eV, -221.70 eV alone).  A row corrupted by its batch mates is
+        # stationary for another Hamiltonian: its commutator on the molecule's own Hamiltonian exceeds eps and it iterates away.
+        try:
+            _G["iters"] = None
+            o = run.single_point([member["Z"]], [member["X"].tolist()], sett_fn(dict(case, conv=[2])),
+                                 charges=float(member["q"]), mult=float(member["mult"]),
+                                 P0=np.array(P_row, dtype=float)[None, :nb, :nb].copy())
+            it = None if _G.get("iters") is None else int(np.asarray(_G["iters"]).reshape(-1)[0])
+            if not _flag(o, 0) and abs(float(o["Etot"][0]) - e_batch) <= 100 * tolE and (it is None or it <= 6):
                 return MECH_DIIS
         except Exception:  # noqa: BLE001
             pass
